@@ -416,7 +416,7 @@ impl ReadXml for Info {
                         b"session-id" => inner.push(InfoElement::SessionId(
                             reader
                                 .read_text(tag.to_end().name())?
-                                .as_ref()
+                                .trim()
                                 .parse()
                                 .map_err(ReadError::SessionIdParse)
                                 .map(|session_id| SessionId::new(session_id).ok())?,
